@@ -260,7 +260,7 @@ class C10(vlib.Driver):
                         cases.append({"kind": "direct", "n": n, "gamma": g, "cap": cap, "E": 1,
                                       "style": "single" if (L + n) % 2 else "vector", "stream": stream, "every": 1})
         # vectorised, seeded
-        nseed = 150 if tier == "quick" else 1500
+        nseed = 150 if tier == "quick" else 1200
         for i in range(nseed):
             E = rng.choice([1, 2, 2, 3, 3])
             n = rng.choice([1, 2, 3, 3, 4, 5])
